@@ -1259,7 +1259,13 @@ def gen_c06_spec(rng: random.Random, depth: int, maxmsgs: int) -> Dict[str, Any]
             m.pop("raw_labels", None)
         if n >= 2 and rng.random() < 0.3:
             # task ids chosen by the caller that differ only in letter case: two ids, two results
-            msgs[0]["tok"], msgs[1]["tok"] = rng.choice([("Report-A1", "report-a1"), ("JOB7", "job7"), ("abcDEF", "ABCdef")])
+            # (... or ids of which one looks like a derived key of the other)
+            msgs[0]["tok"], msgs[1]["tok"] = rng.choice([("Report-A1", "report-a1"), ("JOB7", "job7"), ("abcDEF", "ABCdef"),
+                                                         ("Job-1", "Job-1:progress"), ("Job-1:progress", "Job-1"), ("x", "x:result")])
+            if ":" in msgs[0]["tok"] + msgs[1]["tok"]:
+                for ts_ in tasks.values():
+                    if ts_["fn"] == "async":
+                        ts_["progress"] = True  # (both report progress through the bundled backend)
         if rng.random() < 0.7:
             # the client fetches all results with taskiq.gather(), handles in an order of its own
             order = [m.get("tok") or f"m{i}" for i, m in enumerate(msgs)]
